@@ -12,14 +12,15 @@ def run(chk):
                 'degenerate data / hard start')
     recs = core.run_driver('mm', tier=chk.tier, seed=chk.seed, args=dict(prop='C09'), timeout=3000)
     chk.validate('domain', 'Trace_MM', 'Trace_MM.cfg', recs, driver='mm', jobs=14)
-    good = [r for r in recs if r['exc'] == '' and any(f['name'] == 'cacg_eigenvalues' for f in r['fields']) and r['norm'] == 'eigenvalue'][0]
+    goods = [r for r in recs if r['exc'] == '' and any(f['name'] == 'cacg_eigenvalues' for f in r['fields']) and r['norm'] == 'eigenvalue']
+    good = goods[0]
 
     def corrupt(r):
         for f in r['fields']:
             if f['name'] == 'cacg_eigenvalues':
                 f['t']['data'] = [[x[0], x[1] + 1] for x in f['t']['data']]
         return r
-    core.binding_demo(chk, 'bind-domain', 'Trace_MM', 'Trace_MM.cfg', good, corrupt, 'cacg_eigenvalue_range')
+    core.binding_demo(chk, 'bind-domain', 'Trace_MM', 'Trace_MM.cfg', good, corrupt, 'cacg_eigenvalue_range', candidates=goods[1:])
     chk.assumptions = ['Cholesky factor of Gaussian covariances computed by NumPy in the driver and verified by TLC '
                        '(L L^T = Sigma, positive diagonal)', 'explicit exceptions are accepted for degenerate inputs']
 
